@@ -363,6 +363,14 @@ static void run_one(Rng& R, const HistPlan& hp, int variant)
         std::ostringstream cl; cl << kBackend << ":" << vn << ":st" << (int) a << ":p" << (pb.p > 0) << "m" << (pb.m > 0) << "lb" << pb.has_lb << "ub" << pb.has_ub << ":mode" << hp.mode;
         g_classes.insert(cl.str());
     };
+    auto one_settings = [&](const char* opname) {
+        piqp_settings st; piqp_set_default_settings(&st); st.max_iter = max_iter;
+        sc = !sc; st.preconditioner_scale_cost = sc; st.preconditioner_iter = (piqp_int) (R.range(0, 4) * 3);
+        piqp_update_settings(WA.w, &st); piqp_update_settings(WB.w, &st); g_calls += 2;
+        c_cmp_result(WA.w, WB.w, pb, opname);
+        for (auto& D : keepA) check_unmodified(kBackend, D, "A", (std::string("by a later ") + opname).c_str());
+        for (auto& D : keepB) check_unmodified(kBackend, D, "B(scribbled)", (std::string("by a later ") + opname).c_str());
+    };
     // NULL optionals: A/b, G/h when p = 0 / m = 0, and the bounds at random
     int full = U_P | U_c | (pb.p > 0 ? (U_A | U_b) : 0) | (pb.m > 0 ? (U_G | U_h) : 0) | (pb.has_lb ? U_lb : 0) | (pb.has_ub ? U_ub : 0);
     one_call(true, full, "setup");
@@ -373,8 +381,12 @@ static void run_one(Rng& R, const HistPlan& hp, int variant)
         perturb(R, pb, mask);
         std::string on = "update#" + std::to_string(k + 1) + "mask" + std::to_string(mask);
         one_call(false, mask, on.c_str());
+        // settings updates between data updates: a binding that kept pointers into the caller's setup/update buffers (all scribbled or
+        // freed by now in twin B) and re-reads them when a setting changes is exposed by the following solves
+        if (R.coin(0.5)) one_settings(("settings#" + std::to_string(k + 1)).c_str());
         if (R.coin(0.85)) one_solve(("solve#" + std::to_string(k + 1)).c_str());
     }
+    if (R.coin(0.5)) one_settings("settings#last");
     one_solve("solve#last");
     piqp_cleanup(WA.w); piqp_cleanup(WB.w);
     for (auto& D : keepA) D.release(); for (auto& D : keepB) D.release(); drop_decoys();
